@@ -20,7 +20,7 @@ RULE = ("harness-generated template datasets (rank 1-3, extents 1-6, coordinate 
         "grid_mapping) x variables of f8/f4/i8/i4/i2 with and without _FillValue and random masks x every DataType x MissingValue "
         "combination; write cases with 1-4 results (float64/float32/int64/int32, nomask / all-false / random masks) written together; "
         "distinct by (case kind, rank, stored type, DataType, MissingValue class, has-fill, n results, mask classes)")
-REQUIRED_COUNTERS = ["reads_compared", "type_check_cases", "writes_read_back", "template_copies_compared", "union_mask_checks", "writes_over_an_older_dataset"]
+REQUIRED_COUNTERS = ["reads_compared", "type_check_cases", "writes_read_back", "template_copies_compared", "union_mask_checks", "writes_over_an_older_dataset", "other_type_name_spellings", "written_results_made_by_commands"]
 ASSUMPTIONS = ["don't-care: real data equal to the fill value, result names clashing with dimension names, compression settings, plain ndarray results",
                "Fuzzy: data within [-1,1] must come back unchanged, data beyond +-1.5 must be rejected, whatever is returned lies in [-1,1]; the width "
                "of the tolerance band in between is not documented and not judged", "the parameter is called MissingValue in the code (MissingVal in the docs)"]
@@ -44,7 +44,7 @@ def cases(ctx):
         k += 1
         yield {"kind": "read", "shape": gen_shape(rng), "stored": stored, "dtype": dt, "mv": mv, "fill": rng.random() < 0.6, "rseed": rng.randrange(10 ** 9),
                "flavour": rng.choice(["any", "any", "fuzzy-ok", "fuzzy-far", "nonneg", "fuzzy-pad"]),
-               "marking": rng.choice(["_FillValue", "_FillValue", "missing_value", "valid_range", "valid_min_max"])}
+               "marking": rng.choice(["_FillValue", "_FillValue", "missing_value", "valid_range", "valid_min_max"]), "spelling": rng.random() < 0.12}
     for i in range(ctx.n(400, 20000)):
         yield {"kind": "write", "shape": gen_shape(rng), "n": rng.randint(1, 4), "crs": rng.random() < 0.4, "rseed": rng.randrange(10 ** 9)}
 
@@ -69,9 +69,15 @@ def make_template(d, shape, rng, crs=False, packed=False):
             v[:] = vals
             v.units = rng.choice(["m", "degrees_north", "days since 2000-01-01"])
             v.long_name = "coordinate %s" % nm
+            conv = {}
+            if rng.random() < 0.5:
+                # convention attributes whose names start with an underscore (netCDF-Java / CF tooling)
+                conv = {"_CoordinateAxisType": rng.choice(["Lat", "Lon", "Time", "GeoY"]), "_ChunkHint": "none"}
+                for an_, av_ in conv.items():
+                    v.setncattr(an_, av_)
             info["dims"].append(nm)
             info["coords"][nm] = numpy.array(v[:]).tolist()
-            info["attrs"][nm] = {"units": v.units, "long_name": v.long_name}
+            info["attrs"][nm] = dict({"units": v.units, "long_name": v.long_name}, **conv)
             if packed and i == 0:
                 info["attrs"][nm].update({"scale_factor": v.scale_factor, "add_offset": v.add_offset})
                 v.set_auto_maskandscale(False)
@@ -177,6 +183,15 @@ def run_read(ctx, case):
         args["DataType"] = dt
     if mv is not None:
         args["MissingValue"] = mv
+    if dt and case.get("spelling"):
+        # the type name written another way: refused as an unknown type, or treated exactly like the documented spelling
+        args["DataType"] = rng.choice([dt.lower(), dt.upper(), dt.replace(" ", "  "), " " + dt, dt.replace(" ", "")])
+        if args["DataType"] != dt:
+            ctx.count("other_type_name_spellings")
+            out = arr.invoke(prog, "EEMSRead", "R", args)
+            if not out.ok and out.err == "ParameterNotValid":
+                return
+            prog.commands.pop("R", None)
     out = arr.invoke(prog, "EEMSRead", "R", args)
     valid = [v for v, m in zip(vals, fillmask) if not m]
     has_neg = any(v < 0 for v in valid)
@@ -276,6 +291,19 @@ def run_write(ctx, case):
         else:
             a = numpy.ma.array(data, mask=numpy.array([rng.random() < 0.3 for _ in range(n)]).reshape(shape))
         nm = ["Res0", "res0", "RES0", "Res3"][k] if case["rseed"] % 2 == 0 else "Res%d" % k        # names that differ only in letter case are different results
+        if dt == "float64" and case["rseed"] % 5 == 2 and not numpy.isinf(data).any():
+            # a fuzzy result as a real command leaves it (fully true / fully false cells among them), not a stand-in
+            fz = numpy.ma.array(numpy.clip(numpy.round(numpy.ma.getdata(a) / 50.0 * 8) / 8.0, -1, 1), mask=numpy.ma.getmaskarray(a).copy() if mstyle != "nomask" else False)
+            arr.standin(prog, "Neg_" + nm, -fz, fuzzy=True)
+            made = arr.invoke(prog, "FuzzyNot", nm, {"InFieldName": "Neg_" + nm})
+            if made.ok:
+                a = made.value
+                ctx.count("written_results_made_by_commands")
+                names.append(nm)
+                arrays.append(a)
+                mclasses.append(mstyle)
+                continue
+            prog.commands.pop(nm, None)
         arr.standin(prog, nm, a)
         names.append(nm)
         arrays.append(a)
